@@ -241,6 +241,12 @@ def _fun(pairs, empty='[x \\in {} |-> <<>>]'):
 
 
 def names_in_atoms(name, atoms, K):
+    d = describe(name)
+    macs, envs = formable_names(atoms, K)
+    return (macs & set(d['macros'])), (envs & set(d['envs']))
+
+
+def formable_names(atoms, K):
     """Macro / environment names that strings of <= K atoms can contain.  For the extracted default
     database the signature table handed to TLC is restricted to these names (the full table makes TLC
     slow).  Sound because every name that the atoms can *form* -- inside one atom, or by a bare escape
@@ -248,7 +254,6 @@ def names_in_atoms(name, atoms, K):
     is enumerated here and kept whenever the database knows it."""
     import re
     import itertools
-    d = describe(name)
     letters = [a for a in atoms if len(a) == 1 and a.isalpha()]
     words = {''}
     for k in range(1, K + 1):
@@ -277,7 +282,7 @@ def names_in_atoms(name, atoms, K):
     for w in words:
         if w:
             envs.add(w)
-    return (macs & set(d['macros'])), (envs & set(d['envs']))
+    return macs, envs
 
 
 def tla_defs(name, prefix='', only=None):
